@@ -128,7 +128,7 @@ def run_obligations(prop, tier, plan):
         pickle.dump(P, f)
     kids = list(plan["kernels"])
     workers = max(1, min(int(plan.get("workers", 6)), len(kids)))
-    threads = max(2, 16 // workers)
+    threads = 6   # solver subprocesses per worker; workers that run out of kernels leave cores to the stragglers
     try:
         import multiprocessing
         # spawn (not fork): the driver runs Kani groups in other threads at the same time
